@@ -58,7 +58,7 @@ RULES = [r1_lhs_kill, r2_enum_dispatch, r4_kernels, r5_cache, r6_vertex_namespac
 
 
 # ------------------------------------------------------------------ lost update on a copy
-from ..tree import walk, strip, is_call, is_field, obj, callee, src      # noqa: E402
+from ..tree import walk, strip, is_call, is_field, is_this, obj, callee, src      # noqa: E402
 from ..match import local_decls, strip_move                              # noqa: E402
 
 UF_FILES = ("include/crab/domains/union_find_domain.hpp", "include/crab/domains/numerical_packing.hpp")
@@ -128,3 +128,42 @@ def r8_lost_update(ctx):
 
 
 RULES += [r8_lost_update]
+
+
+def r9_container_replaced_in_loop(ctx):
+    ctx.rule("C03.r9", "powerset: inside a loop that indexes m_disjuncts with a size cached before the loop, a call that REPLACES the "
+             "vector (set_to_top / set_to_bottom / clear) is followed by return or break - never by a further iteration", floor=2)
+    PW = "include/crab/domains/powerset_domain.hpp"
+    from ..paths import terminates
+    n = 0
+    for fn in ctx.db.fns(PW, cpk="crab::domains::powerset_domain"):
+        body = fn["body"]
+        for l in walk(body):
+            if l.get("k") != "for":
+                continue
+            # index loop over m_disjuncts with cached size
+            hdr = [l.get("i"), l.get("c")]
+            if not any(is_field(x, "m_disjuncts") for h in hdr for x in walk(h)):
+                continue
+            cached = any(is_call(x, name="size") for x in walk(l.get("i")))
+            for blk in [b for b in walk(l.get("b")) if b.get("k") == "seq"]:
+                stmts = blk.get("b", [])
+                for i, st in enumerate(stmts):
+                    if not any((is_call(x, name=("set_to_top", "set_to_bottom")) and ("o" not in x or is_this(x.get("o")))) or
+                               (is_call(x, name="clear") and is_field(obj(x), "m_disjuncts")) for x in walk(st) if st.get("k") not in ("if", "for", "seq")):
+                        continue
+                    n += 1
+                    rest = stmts[i + 1:]
+                    stops = any(x.get("k") in ("ret", "break") for r in rest for x in [r]) or any(terminates(r) for r in rest)
+                    if stops or not cached:
+                        ctx.ok("%s: loop left after the vector is replaced" % fn["name"], fn, st)
+                    else:
+                        ctx.bad("powerset_domain::%s replaces m_disjuncts with `%s` inside the loop over its elements and keeps iterating "
+                                "with the size cached before the loop: m_disjuncts[i] is then out of bounds (undefined behaviour; "
+                                "AddressSanitizer reports container-overflow)" % (fn["name"], src(st)[:40]), fn, st,
+                                sig="vector-replaced-in-loop:%s" % fn["name"])
+    if n == 0:
+        ctx.fail("rule C03.r9: no set_to_top()/set_to_bottom() inside a loop over m_disjuncts found")
+
+
+RULES += [r9_container_replaced_in_loop]
